@@ -490,12 +490,16 @@ class HttpBeaconClient:
     def get_handlers(self, command_id: Union[int, None]) -> List[Callable]:
         """Get a list of handlers for a given command ID."""
         if command_id is not None:
-            task = BeaconCommand(command_id)
-            command_name = task.name.replace("COMMAND_", "").lower() if task else "empty_task"
+            try:
+                command_name = BeaconCommand(command_id).name.replace("COMMAND_", "").lower()
+            except ValueError:
+                # command id that is not in our BeaconCommand table (e.g. sent by a newer Team Server),
+                # there can be no on_<command> method for it but registered and catch-all handlers still apply
+                command_name = None
         else:
             command_name = "empty_task"
 
-        on_handler = getattr(self, f"on_{command_name}", None)
+        on_handler = getattr(self, f"on_{command_name}", None) if command_name else None
         handlers = list(self.task_map.get(command_id, []))
 
         # if there is a "on_command" handler, add it to the list
